@@ -143,9 +143,13 @@ pub fn expected_boundary(now_ns: i64, s_minus_delay_ns: i64, u: Unit, n: i64, mo
         _ => return Expect::OutOfRange,
     };
     // beyond the range of ns arithmetic (year 2262): nothing exact can be asserted
-    if next_utc > 9_000_000_000_000_000_000 || s_minus_delay_ns > 9_000_000_000_000_000_000 {
+    if next_utc > 9_000_000_000_000_000_000 {
         return Expect::OutOfRange;
     }
+    // An actual instant beyond that range while the expected boundary is well inside it is a
+    // wrong schedule (the "not representable" branch taken by mistake), not a reason to give up:
+    // the proviso is then evaluated over the expected span only.
+    let s_minus_delay_ns = if s_minus_delay_ns > 9_000_000_000_000_000_000 { next_utc } else { s_minus_delay_ns };
     // proviso: the zone's offset is the same over the whole span from the
     // start of the current unit to the later of the expected and the actual
     // boundary ("wherever the zone's UTC offset does not change in between").
